@@ -55,12 +55,12 @@ SPEC = {
             "nestings (20, 60); malformed-by-construction strings (cannot start / dangling operator / unclosed parenthesis) with "
             "the expected error constructor and payload; mutated renderings and token-soup garbage incl. non-White_Space Unicode. "
             "HISTORIES (error path followed by normal use on one thread): batches of 50, 250 and 1000 (thorough: also 199, 200, 5000) "
-            "failing parses on a fresh thread, cycling through failing texts of one kind or of all kinds - dangling operator inside an open "
+            "failing parses on a fresh thread (quick: 5 batches of 50, 3 of 250, 1 of 1000), cycling through failing texts of one kind or of all kinds - dangling operator inside an open "
             "parenthesis `(1 +`, `1 + (2 ^ )`; text that cannot start an expression inside a parenthesis `(x)`, `()`, `(2 * )`; several "
             "parentheses open at the failure `((2*`, `((((`; function-call parentheses `sin(`, `cos(1 +` and unclosed `(1+2` - each batch "
             "followed on the same thread by 10 valid texts containing parentheses (`( e )`, `(1+2)*3`, `1/(e - 2)`, `sqrt(3*3+(e-4)^2)`, "
-            "`-((e))`, generated, with layout and remainder), request `@after <n> <failing texts> @ g ...`; the first one or two of each batch on "
-            "a thread of their own with exactly that history, the others one after another; the failing texts themselves once each as `x`. "
+            "`-((e))`, generated, with layout and remainder), request `@after <n> <failing texts> @ g ...`; one thread per batch, so the first valid text has exactly the "
+            "stated history and the j-th one additionally the j-1 successful parses before it; the failing texts themselves once each as `x`. "
             "Model and reference are functions of the text alone, so a result that depends on the history is an (A) mismatch and a (B) "
             "failure. Parenthesis nesting never exceeds 60 (quantifier: up to a nesting depth; none above 150 is generated). "
             "(A) compares AST with literal bits, remainder, error payload exactly and the value (exact for + - * / neg, 2 ulp "
